@@ -159,8 +159,9 @@ package core
 //@     invariant forall s int32 :: kcnt_unfold(resp.Keys, i / 2, s) && (has(resp.Frags2, s) <==> kcnt(resp.Keys, i / 2, s) > 0)
 //@     invariant forall s int32 :: has(resp.Frags2, s) ==> len(resp.Frags2[s]) == kcnt(resp.Keys, i / 2, s)
 //@     invariant forall p int :: (0 <= p && p < i / 2) ==> (kcnt_unfold(resp.Keys, p, keyslot(resp.Keys[p])) && kcnt_unfold(resp.Keys, p + 1, keyslot(resp.Keys[p])) && kcnt_mono(resp.Keys, p + 1, i / 2, keyslot(resp.Keys[p]))
-//@         && resp.Frags2[keyslot(resp.Keys[p])][kcnt(resp.Keys, p, keyslot(resp.Keys[p]))][0] == resp.Keys[p]
-//@         && resp.Frags2[keyslot(resp.Keys[p])][kcnt(resp.Keys, p, keyslot(resp.Keys[p]))][1] == pairval(buf, p))
+//@         && kcnt(resp.Keys, p, keyslot(resp.Keys[p])) < kcnt(resp.Keys, i / 2, keyslot(resp.Keys[p])))
+//@     invariant forall p int :: (0 <= p && p < i / 2) ==> resp.Frags2[keyslot(resp.Keys[p])][kcnt(resp.Keys, p, keyslot(resp.Keys[p]))][0] == resp.Keys[p]
+//@     invariant forall p int :: (0 <= p && p < i / 2) ==> resp.Frags2[keyslot(resp.Keys[p])][kcnt(resp.Keys, p, keyslot(resp.Keys[p]))][1] == pairval(buf, p)
 //@     decreases n - i
 
 // Encoders (C06): each per-slot group becomes one fragment whose request bytes are the canonical RESP encoding
